@@ -734,12 +734,14 @@ def enum_codes(src, enum, what):
 
 
 def match_arms_to(src_block, target, what, at_least=1):
-    """`68 => Server::Dedicated,` / `109 | 111 => Self::Mac,` -> [(68, "Dedicated"), (109, "Mac"), (111, "Mac")]"""
+    """`68 => Server::Dedicated,` / `109 | 111 => Self::Mac,` -> [(68, "Dedicated"), (109, "Mac"), (111, "Mac")], ascending"""
     out = []
     for codes, variant in need_all(r"((?:[0-9]+\s*\|\s*)*[0-9]+)\s*=>\s*(?:Ok\()?%s(\w+)" % target, src_block, what, at_least=at_least):
         for c in codes.split("|"):
             out.append((rust_int(c, what), variant))
-    return out
+    if len({c for c, _ in out}) != len(out):
+        raise ConstError(f"{what}: a code occurs in two arms")
+    return sorted(out)  # the arms are disjoint literals: their order carries no meaning
 
 
 # ---- Valve
